@@ -43,18 +43,18 @@ func approvals(rng *kernel.RNG, op string, target int64, nval int) []kernel.Step
 
 // GenWorkload produces a list of transaction steps and "block" cuts.
 func GenWorkload(rng *kernel.RNG, c GenCfg) []kernel.Step {
-	weights := map[string]int{"chain": 4, "import": 6, "cand": 3, "relayer": 2, "node": 2, "priv": 2, "noise": 2, "sig": 1, "burst": 1, "delonly": 0, "twoepochs": 1}
+	weights := map[string]int{"chain": 4, "import": 6, "cand": 3, "relayer": 2, "node": 2, "priv": 2, "noise": 2, "sig": 1, "burst": 1, "delonly": 0, "twoepochs": 1, "returning": 1}
 	for k, v := range c.W {
 		weights[k] = v
 	}
 	// swarm: switch some families off entirely in some runs
-	for _, k := range []string{"chain", "import", "cand", "relayer", "node", "priv", "noise", "sig", "burst", "delonly", "twoepochs"} {
+	for _, k := range []string{"chain", "import", "cand", "relayer", "node", "priv", "noise", "sig", "burst", "delonly", "twoepochs", "returning"} {
 		if _, forced := c.W[k]; !forced && rng.Chance(0.15) {
 			weights[k] = 0
 		}
 	}
 	var fams []string
-	for _, k := range []string{"chain", "import", "cand", "relayer", "node", "priv", "noise", "sig", "burst", "delonly", "twoepochs"} {
+	for _, k := range []string{"chain", "import", "cand", "relayer", "node", "priv", "noise", "sig", "burst", "delonly", "twoepochs", "returning"} {
 		for i := 0; i < weights[k]; i++ {
 			fams = append(fams, k)
 		}
@@ -191,6 +191,19 @@ func GenWorkload(rng *kernel.RNG, c GenCfg) []kernel.Step {
 					txs = append(txs, a)
 				}
 				txs = append(txs, S("regrelayer", int64(rng.Intn(nUsers)), int64(rng.Intn(c.NVal))), S("nocut-end"))
+			}
+		case "returning":
+			// a pool member leaves at an epoch change and applies again (it keeps its peer index),
+			// is approved, and a stale approval round follows
+			v := int64(rng.Intn(c.NVal))
+			own := v
+			if rng.Chance(0.3) {
+				own = nv + int64(nCands) + int64(rng.Intn(nUsers))
+			}
+			txs = append(txs, S("quitnode", v, v), S("commitdpos", 0, 0), S("regcand", v, own))
+			txs = append(txs, approvals(rng, "approvecand", v, c.NVal)...)
+			if rng.Chance(0.7) {
+				txs = append(txs, approvals(rng, "approvecand", v, c.NVal)...)
 			}
 		case "twoepochs":
 			// two epoch-changing operations inside one block
